@@ -540,3 +540,9 @@ impl<'a> fmt::Debug for Item<'a> {
         }
     }
 }
+
+#[cfg(kani)]
+mod verif_kani {
+    use super::*;
+    include!(concat!(env!("LIBTW2_VERIF_HARNESS"), "/teehistorian_raw.rs"));
+}
